@@ -51,9 +51,44 @@ package protocol
 
 //@ func EncodeCMPPContentAndSplit
 //@   props C06,C07
-//@   ensures [C06 coding.requested] cmppvalid(int(msgFmt)) && cmppok(int(msgFmt), content) ==> err == nil && int(actualMsgFmt) == int(msgFmt)
+//@   ensures [C06 coding.requested] cmppvalid(int(msgFmt)) && cmppok(int(msgFmt), content) && (len(cmppenc(int(msgFmt), content)) + 133) / 134 <= 255 ==> err == nil && int(actualMsgFmt) == int(msgFmt)
 //@   ensures [C06 coding.fallback] !(cmppvalid(int(msgFmt)) && cmppok(int(msgFmt), content)) && ucs2ok(content) && (len(ucs2enc(content)) + 133) / 134 <= 255 ==> err == nil && int(actualMsgFmt) == 8
 //@   ensures [C06 coding.error] !(cmppvalid(int(msgFmt)) && cmppok(int(msgFmt), content)) && !ucs2ok(content) ==> err != nil
 //@   ensures [C06,C07 single] err == nil && len(cmppenc(int(actualMsgFmt), content)) <= 140 ==> len(contents) == 1 && contents[0] == cmppenc(int(actualMsgFmt), content)
 //@   ensures [C06,C07 multi] err == nil && len(cmppenc(int(actualMsgFmt), content)) > 140 ==> len(contents) == (len(cmppenc(int(actualMsgFmt), content)) + 133) / 134 && len(contents) <= 255 && partsOf(contents, cmppenc(int(actualMsgFmt), content), int(frameKey), 134)
 //@   ensures [C07 toomany] cmppvalid(int(msgFmt)) && cmppok(int(msgFmt), content) && (len(cmppenc(int(msgFmt), content)) + 133) / 134 > 255 ==> err != nil
+
+// ---------------------------------------------------------------- packed GSM 7-bit splitter (C06, C07, C14)
+// pend(S, b): where the part starting at septet b ends; cutAt(S, k): start of part k; cuts(S, b): parts needed from b on.
+//@ pure func pend(S Bytes, b int) int = b + 153 >= len(S) ? len(S) : (at(S, b + 152) == 27 ? b + 152 : b + 153)
+//@ rec func cuts(S Bytes, b int) int = b >= len(S) ? 0 : 1 + cuts(S, pend(S, b))
+//@ rec func cutAt(S Bytes, k int) int = k <= 0 ? 0 : pend(S, cutAt(S, k - 1))
+
+//@ func packedPartEnd
+//@   props C06,C07,C14
+//@   requires 0 <= begin && begin < len(septets)
+//@   ensures [C07 end] result == pend(content(septets), begin) && begin < result && result <= len(septets) && result - begin <= 153
+
+//@ func encodeAndSplitGSM7Packed
+//@   props C06,C07,C14
+//@   ensures [C06 refuse] !gsmencodable(content) ==> result2 != nil
+//@   ensures [C06,C07 single] gsmencodable(content) && len(gsmseptets(content)) <= 160 ==> result2 == nil && int(result1) == 99 && len(result0) == 1 && result0[0] == packimg(gsmseptets(content))
+//@   ensures [C07 toomany] gsmencodable(content) && len(gsmseptets(content)) > 160 && cuts(gsmseptets(content), 0) > 255 ==> result2 != nil
+//@   ensures [C06,C07 count] gsmencodable(content) && len(gsmseptets(content)) > 160 && cuts(gsmseptets(content), 0) <= 255 ==> result2 == nil && int(result1) == 99 && len(result0) == cuts(gsmseptets(content), 0) && cutAt(gsmseptets(content), len(result0)) == len(gsmseptets(content))
+//@   ensures [C06,C07 parts] gsmencodable(content) && len(gsmseptets(content)) > 160 && cuts(gsmseptets(content), 0) <= 255 ==> (forall k int :: 0 <= k && k < len(result0) ==> result0[k] == cat(udh(int(frameKey), len(result0), k + 1), packimg(ext(gsmseptets(content), cutAt(gsmseptets(content), k), cutAt(gsmseptets(content), k + 1)))))
+//@   ensures [C07 sizes] gsmencodable(content) && len(gsmseptets(content)) > 160 && cuts(gsmseptets(content), 0) <= 255 ==> (forall k int :: 0 <= k && k < len(result0) ==> 0 < cutAt(gsmseptets(content), k + 1) - cutAt(gsmseptets(content), k) && cutAt(gsmseptets(content), k + 1) - cutAt(gsmseptets(content), k) <= 153)
+//@   ensures [C14 esc] gsmencodable(content) && len(gsmseptets(content)) > 160 && cuts(gsmseptets(content), 0) <= 255 ==> (forall k int :: 0 < k && k < len(result0) ==> at(gsmseptets(content), cutAt(gsmseptets(content), k) - 1) != 27)
+//@   loop 1
+//@     invariant 0 <= begin && begin <= len(contentBytes) && 0 <= msgCount
+//@     invariant msgCount + cuts(content(contentBytes), begin) == cuts(content(contentBytes), 0)
+//@     invariant begin == cutAt(content(contentBytes), msgCount)
+//@     decreases len(contentBytes) - begin
+//@   loop 2
+//@     invariant 0 <= begin && begin <= len(contentBytes) && 0 <= idx && len(res) == idx
+//@     invariant idx + cuts(content(contentBytes), begin) == msgCount
+//@     invariant begin == cutAt(content(contentBytes), idx)
+//@     invariant forall k int :: 0 <= k && k < idx ==> res[k] == cat(udh(int(frameKey), msgCount % 256, (k + 1) % 256), packimg(ext(content(contentBytes), cutAt(content(contentBytes), k), cutAt(content(contentBytes), k + 1))))
+//@     invariant forall k int :: 0 <= k && k < idx ==> 0 < cutAt(content(contentBytes), k + 1) - cutAt(content(contentBytes), k) && cutAt(content(contentBytes), k + 1) - cutAt(content(contentBytes), k) <= 153
+//@     invariant forall k int :: 0 < k && k <= idx && cutAt(content(contentBytes), k) < len(contentBytes) ==> at(content(contentBytes), cutAt(content(contentBytes), k) - 1) != 27
+//@     invariant forall k int :: 0 <= k && k <= idx ==> cutAt(content(contentBytes), k) <= begin
+//@     decreases len(contentBytes) - begin
